@@ -3683,33 +3683,48 @@ GRwritelut(int32 lutid, int32 ncomps, int32 nt, int32 il, int32 nentries, void *
     /* Check if this is compatible with older-style palettes */
     if (ncomps == 3 && (nt == DFNT_UINT8 || nt == DFNT_UCHAR8) && il == MFGR_INTERLACE_PIXEL &&
         nentries == 256) {
+        uint16 lut_tag, lut_ref; /* where the palette goes */
+        int    new_lut;          /* whether the image has no palette yet */
+
         /* Check if LUT exists already */
-        if (ri_ptr->lut_tag != DFTAG_NULL && ri_ptr->lut_ref != DFREF_WILDCARD) { /* LUT already exists */
-            if (Hputelement(hdf_file_id, ri_ptr->lut_tag, ri_ptr->lut_ref, data,
-                            ncomps * nentries * DFKNTsize(nt)) == FAIL)
-                HGOTO_ERROR(DFE_PUTELEM, FAIL);
+        new_lut = !(ri_ptr->lut_tag != DFTAG_NULL && ri_ptr->lut_ref != DFREF_WILDCARD);
+        if (!new_lut) { /* LUT already exists */
+            lut_tag = ri_ptr->lut_tag;
+            lut_ref = ri_ptr->lut_ref;
         }      /* end if */
         else { /* LUT does not exist */
-            ri_ptr->lut_tag                  = DFTAG_LUT;
-            ri_ptr->lut_ref                  = Htagnewref(hdf_file_id, ri_ptr->lut_tag);
-            ri_ptr->lut_dim.dim_ref          = DFREF_WILDCARD;
+            lut_tag = DFTAG_LUT;
+            if ((lut_ref = Htagnewref(hdf_file_id, lut_tag)) == 0)
+                HGOTO_ERROR(DFE_NOREF, FAIL);
+        } /* end else */
+
+        /* the image's palette information changes only once the palette is in the file */
+        if (Hputelement(hdf_file_id, lut_tag, lut_ref, data, ncomps * nentries * DFKNTsize(nt)) == FAIL)
+            HGOTO_ERROR(DFE_PUTELEM, FAIL);
+
+        if (new_lut) {
+            ri_ptr->lut_tag          = lut_tag;
+            ri_ptr->lut_ref          = lut_ref;
+            ri_ptr->lut_dim.dim_ref  = DFREF_WILDCARD;
+            ri_ptr->lut_dim.nt_tag   = DFTAG_NULL;
+            ri_ptr->lut_dim.nt_ref   = DFREF_WILDCARD;
+            ri_ptr->lut_dim.comp_tag = DFTAG_NULL;
+            ri_ptr->lut_dim.comp_ref = DFREF_WILDCARD;
+        } /* end if */
+
+        /* describe what has been written (an existing palette may have had another layout) */
+        if (new_lut || ri_ptr->lut_dim.xdim != 256 || ri_ptr->lut_dim.ydim != 1 || ri_ptr->lut_dim.ncomps != 3 ||
+            ri_ptr->lut_dim.nt != DFNT_UINT8 || ri_ptr->lut_dim.il != MFGR_INTERLACE_PIXEL) {
             ri_ptr->lut_dim.xdim             = 256;
             ri_ptr->lut_dim.ydim             = 1;
             ri_ptr->lut_dim.ncomps           = 3;
             ri_ptr->lut_dim.nt               = DFNT_UINT8;
             ri_ptr->lut_dim.file_nt_subclass = DFNTF_HDFDEFAULT;
             ri_ptr->lut_dim.il               = MFGR_INTERLACE_PIXEL;
-            ri_ptr->lut_dim.nt_tag           = DFTAG_NULL;
-            ri_ptr->lut_dim.nt_ref           = DFREF_WILDCARD;
-            ri_ptr->lut_dim.comp_tag         = DFTAG_NULL;
-            ri_ptr->lut_dim.comp_ref         = DFREF_WILDCARD;
-            if (Hputelement(hdf_file_id, ri_ptr->lut_tag, ri_ptr->lut_ref, data,
-                            ncomps * nentries * DFKNTsize(nt)) == FAIL)
-                HGOTO_ERROR(DFE_PUTELEM, FAIL);
 
             ri_ptr->meta_modified       = TRUE;
             ri_ptr->gr_ptr->gr_modified = TRUE;
-        }  /* end else */
+        } /* end if */
     }      /* end if */
     else { /* currently, we are not going to support non-standard palettes */
         HGOTO_ERROR(DFE_UNSUPPORTED, FAIL);
